@@ -157,8 +157,9 @@ func runC09(c *core.Ctx) {
 				for _, s := range srcs {
 					switch {
 					case s.Kind == "param" && len(s.Path) > 0 && s.Path[len(s.Path)-1] == "Exptime":
-					case rel == "handlers/memcached/chunked" && fn.Name() == "handleAppendPrependCommon" && s.Kind == "call" &&
-						strings.HasSuffix(ssax.CalleeName(s.Call), "chunked.getMetadata") && s.PathIs("Exptime"):
+					case rel == "handlers/memcached/chunked" && s.Kind == "call" && s.PathIs("Exptime") && s.Call.StaticCallee() != nil &&
+						s.Res < s.Call.StaticCallee().Signature.Results().Len() &&
+						strings.HasSuffix(types.TypeString(s.Call.StaticCallee().Signature.Results().At(s.Res).Type(), nil), "chunked.metadata"):
 						// exception: append/prepend leave the expiry unchanged -> re-store with the stored expiry
 					default:
 						bad = append(bad, s.String())
@@ -493,7 +494,7 @@ func runR94(c *core.Ctx) {
 func runR95(c *core.Ctx) {
 	pv := &ssax.Prov{}
 	// (a) std.realHandleGetE: hit response Exptime <- GetLocal#2 with readExp == true
-	fn := c.P.Func("handlers/memcached/std", "realHandleGetE")
+	fn := findFunc(c, "handlers/memcached/std", "realHandleGetE", roleStdGetE)
 	if fn == nil {
 		c.Undecided("R9.5", "std.realHandleGetE", "-", "anchor not found")
 	} else {
@@ -543,7 +544,7 @@ func runR95(c *core.Ctx) {
 	// (b) batched.realHandleGetE submits RequestGetE
 	checkSubmitType(c, "R9.5", "realHandleGetE", "RequestGetE")
 	// (c) reader fills Exptime from a 4-byte big-endian read
-	rd := c.P.Func("handlers/memcached/batched", "(*conn).reader")
+	rd := findFunc(c, "handlers/memcached/batched", "(*conn).reader", rolePoolReader)
 	if rd == nil {
 		c.Undecided("R9.5", "batched.(*conn).reader", "-", "anchor not found")
 	} else {
